@@ -48,13 +48,45 @@ def _find_op_tables(prog):
 
 
 def rule_r1(ctx):
-    rr = RuleResult("C13-R1", "operator -> in-place method table is total and equals the data-model table")
+    """The in-place method per operator, read off the templates (one context per operator kind), so
+    the rule does not depend on how the repository represents the table (dict, function, ...)."""
+    rr = RuleResult("C13-R1", "operator -> in-place method is total and equals the data-model table")
     rr.exhaustive = True
     rr.floor = 13
-    tables = _find_op_tables(ctx.prog)
-    if not tables:
-        raise AnalysisError("C13-R1: the operator -> in-place dunder table was not found")
-    for tname, rel, tab in tables:
+    entry = ctx.tmpl.pending_by_kind("AugAssign")
+    used: dict[str, set] = {}
+    aborted: dict[str, str] = {}
+    for pr in entry.paths:
+        node = pr.extra.get("node")
+        opn = node.fields.get("op") if node is not None else None
+        if opn is None or len(opn.kinds) != 1:
+            continue
+        k = next(iter(opn.kinds))
+        if pr.outcome == "ok":
+            names = set()
+            for t in iter_tnodes(pr.result):
+                if t.kind == "Call" and _is_call_named(t, "hasattr"):
+                    args = t.fields.get("args")
+                    if isinstance(args, PList) and len(args.items) == 2 and isinstance(args.items[1], TNode) and isinstance(args.items[1].fields.get("value"), Cst):
+                        names.add(args.items[1].fields["value"].value)
+                if t.kind == "Attribute" and isinstance(t.fields.get("attr"), Cst) and str(t.fields["attr"].value).startswith("__i"):
+                    names.add(t.fields["attr"].value)
+            used.setdefault(k, set()).update(names)
+        elif pr.outcome in ("abort", "raise") and any(x in str(getattr(pr.raised, "exc", pr.raised)) + str(pr.events) for x in ("KeyError", "key-error")):
+            aborted[k] = str(pr.events[:1] or pr.raised)
+    where = entry.paths[0].extra.get("where", "PendingAugAssign") if entry.paths else "PendingAugAssign"
+    for op in [c.__name__ for c in ast.operator.__subclasses__()]:
+        rr.instances += 1
+        what = f"inplace|{op}"
+        names = used.get(op, set())
+        if not names:
+            rr.fail(f"C13-R1|{op}|missing", f"PendingAugAssign: no in-place method is emitted for ast.{op} ({aborted.get(op, 'no context reaches the template')}): KeyError during conversion of `x {op}= y`", what=what)
+        elif names != {INPLACE[op]}:
+            rr.fail(f"C13-R1|{op}|wrong-method", f"PendingAugAssign: for ast.{op} the template tests/calls {sorted(names)}, the data model prescribes {INPLACE[op]!r}", what=what)
+        else:
+            rr.ok(what, sample={"rule": "C13-R1", "operator": op, "method": INPLACE[op]})
+    # cross-check of a literal table, when the repository has one
+    for tname, rel, tab in _find_op_tables(ctx.prog):
         have = {k.__name__: v for k, v in tab.items()}
         for op in [c.__name__ for c in ast.operator.__subclasses__()]:
             rr.instances += 1
